@@ -121,6 +121,62 @@ theorem opsurf_lw (a : OpSurf) (icao : Nat) (cap : Cap) :
       meReport (.opStatus (.surface a)) icao "(Mode S / ADS-B)" cap true := by
   simp [meReport]
 
+/-- DF16: the altitude line ("Baro altitude") appears exactly when the decoded altitude is above 0, whatever the VS bit says -/
+theorem df16_template (crc vs s1 sl s2 ri s3 alt mv p : Nat) :
+    report ⟨.longAirAir vs s1 sl s2 ri s3 alt mv p, crc⟩ =
+      [[lit " Long Air-Air ACAS"], [lit "  ICAO Address:  ", .hex crc 6, lit " (Mode S / ADS-B)"]] ++
+      (if alt > 0 then [[lit "  Air/Ground:    airborne?"], [lit "  Baro altitude: ", .nat alt, lit " ft"]] else [[lit "  Air/Ground:    ground"]]) := by
+  by_cases h : alt > 0 <;> simp [report, h]
+
+/-- DF11: the *announced* address and the capability word -/
+theorem df11_template (crc icao pi : Nat) (ca : Cap) :
+    report ⟨.allCall ca icao pi, crc⟩ =
+      [[lit " All Call Reply"], [lit "  ICAO Address:  ", .hex icao 6, lit " (Mode S / ADS-B)"], [lit "  Air/Ground:    ", lit (capWord ca)]] := by
+  simp [report]
+
+/-- DF20 / DF21: the address shown is the checksum (address overlaid on parity), then altitude resp. squawk, then the Comm-B payload -/
+theorem df20_template (crc fs alt : Nat) (dr : DR) (um : UM) (bds : BDS) :
+    report ⟨.commBAlt fs dr um alt bds, crc⟩ =
+      [[lit " Comm-B, Altitude Reply"], [lit "  ICAO Address:  ", .hexNoPad crc, lit " (Mode S / ADS-B)"],
+       [lit "  Altitude:      ", .nat alt, lit " ft"]] ++ indentFirst "  " (bdsReport bds) := by
+  simp [report]
+
+theorem df21_template (crc fs id p : Nat) (dr : DR) (um : UM) (bds : BDS) :
+    report ⟨.commBId fs dr um id bds p, crc⟩ =
+      [[lit " Comm-B, Identity Reply"], [lit "    ICAO Address:  ", .hexNoPad crc, lit " (Mode S / ADS-B)"],
+       [lit "    Squawk:        ", .hexNoPad id]] ++ indentFirst "    " (bdsReport bds) := by
+  simp [report]
+
+/-- identification: the callsign characters as decoded, the category letter of the type code and the category number -/
+theorem ident_template (i : Ident) (icao : Nat) (cap : Cap) :
+    meReport (.ident i) icao "(Mode S / ADS-B)" cap true =
+      [[lit " Extended Squitter Aircraft identification and category"], [lit "  Address:       ", .hex icao 6, lit " (Mode S / ADS-B)"],
+       [lit "  Air/Ground:    ", lit (capWord cap)], [lit "  Ident:         ", .text i.cn],
+       [lit "  Category:      ", lit (tcLetter i.tc), .nat i.ca]] := by
+  simp [meReport]
+
+/-- emergency / priority status: the decoded squawk and the word of the decoded emergency state -/
+theorem status_template (s : AcStatus) (icao : Nat) (cap : Cap) :
+    meReport (.status s) icao "(Mode S / ADS-B)" cap true =
+      [[lit " Extended Squitter Emergency/priority status"], [lit "  Address:       ", .hex icao 6, lit " (Mode S / ADS-B)"],
+       [lit "  Air/Ground:    ", lit (capWord cap)], [lit "  Squawk:        ", .hexNoPad s.squawk],
+       [lit "  Emergency/priority:    ", lit (emergencyWord s.emergency)]] := by
+  simp [meReport]
+
+/-- airborne operational status: each capability word appears exactly when its decoded field equals 1 — in particular " TC" for the
+2-bit value 1 only, not for 2 or 3 -/
+theorem opair_capability_words (a : OpAir) (icao : Nat) (cap : Cap) :
+    ([lit "   Capability classes:"] ++ (if a.acas = 1 then [lit " ACAS"] else []) ++ (if a.cdti = 1 then [lit " CDTI"] else []) ++
+      (if a.arv = 1 then [lit " ARV"] else []) ++ (if a.ts = 1 then [lit " TS"] else []) ++ (if a.tc = 1 then [lit " TC"] else [])) ∈
+      meReport (.opStatus (.airborne a)) icao "(Mode S / ADS-B)" cap true := by
+  simp [meReport]
+
+/-- the operational-mode words of both operational status reports appear exactly when their decoded bits are set; SDA when not 0 -/
+theorem om_words (o : OpMode) :
+    omPieces o = (if o.ra = 1 then [lit " TCAS"] else []) ++ (if o.ident = 1 then [lit " IDENT_SWITCH_ACTIVE"] else []) ++
+      (if o.atc = 1 then [lit " ATC"] else []) ++ (if o.saf = 1 then [lit " SAF"] else []) ++
+      (if o.sda ≠ 0 then [lit " SDA=", .nat o.sda] else []) := rfl
+
 /-- a TIS-B / ADS-R report is the same template with "(Non-Transponder)", the address-scheme word of its control field
 and the fixed capability word -/
 theorem tisb_uses_same_template (cf aa pi crc : Nat) (me : ME) :
